@@ -24,6 +24,7 @@ import (
 	"path/filepath"
 	"strings"
 	"sync"
+	"syscall"
 	"testing"
 	"time"
 
@@ -138,7 +139,15 @@ func TestVerifC14(t *testing.T) {
 		cache = os.TempDir()
 	}
 	bin := filepath.Join(cache, fmt.Sprintf("broker-%d.bin", os.Getpid()))
-	build := exec.Command("go", "build", "-modfile="+filepath.Join(cache, "repo.go.mod"), "-o", bin, ".")
+	// under the race detector (C20 re-runs this harness with VERIF_RACE=1) the binary itself is a -race build,
+	// runs with the geoip databases loaded and receives SIGHUPs (geoip reload) while it serves; its race
+	// reports go to the GORACE log_path inherited from the test process
+	raceRun := os.Getenv("VERIF_RACE") == "1"
+	buildArgs := []string{"build", "-modfile=" + filepath.Join(cache, "repo.go.mod"), "-o", bin}
+	if raceRun {
+		buildArgs = append(buildArgs, "-race")
+	}
+	build := exec.Command("go", append(buildArgs, ".")...)
 	if out, err := build.CombinedOutput(); err != nil {
 		t.Fatalf("cannot build the broker binary: %v\n%s", err, out)
 	}
@@ -156,6 +165,9 @@ func TestVerifC14(t *testing.T) {
 		addr := ln.Addr().String()
 		ln.Close()
 		cmd := exec.Command(bin, "-disable-tls", "-disable-geoip", "-addr", addr, "-metrics-log", metricsFile)
+		if raceRun {
+			cmd = exec.Command(bin, "-disable-tls", "-geoipdb", "test_geoip", "-geoip6db", "test_geoip6", "-addr", addr, "-metrics-log", metricsFile)
+		}
 		cmd.Stderr = &lockedWriter{w: &logBuf, mu: &logMu}
 		cmd.Stdout = io.Discard
 		if err := cmd.Start(); err != nil {
@@ -164,7 +176,35 @@ func TestVerifC14(t *testing.T) {
 		for i := 0; i < 200; i++ {
 			if c, err := net.DialTimeout("tcp", addr, 100*time.Millisecond); err == nil {
 				c.Close()
-				return addr, func() { cmd.Process.Kill(); cmd.Wait() }
+				hup := make(chan struct{})
+				if raceRun {
+					go func() {
+						for {
+							select {
+							case <-hup:
+								return
+							case <-time.After(40 * time.Millisecond):
+								cmd.Process.Signal(syscall.SIGHUP)
+							}
+						}
+					}()
+				}
+				return addr, func() {
+					close(hup)
+					if raceRun {
+						// let the race runtime flush its reports
+						cmd.Process.Signal(os.Interrupt)
+						done := make(chan struct{})
+						go func() { cmd.Wait(); close(done) }()
+						select {
+						case <-done:
+							return
+						case <-time.After(2 * time.Second):
+						}
+					}
+					cmd.Process.Kill()
+					cmd.Wait()
+				}
 			}
 			time.Sleep(25 * time.Millisecond)
 		}
